@@ -7,6 +7,8 @@ open CV.EnvLayers.Spec
 /-- the Go-map invariant: keys are distinct -/
 def Distinct {β : Type} (m : List (Key × β)) : Prop := (m.map Prod.fst).Nodup
 
+instance {β : Type} (m : List (Key × β)) : Decidable (Distinct m) := inferInstanceAs (Decidable (List.Nodup _))
+
 theorem orElse_none_right (a : Option Str) : orElse a none = a := by cases a <;> rfl
 theorem orElse_none_left (a : Option Str) : orElse none a = a := rfl
 theorem orElse_some (v : Str) (b : Option Str) : orElse (some v) b = some v := rfl
@@ -422,5 +424,75 @@ theorem loadLabelFiles_spec (fs : FS) (paths : List Str) (acc res : List (Key ×
       simp only [labelFilesValRevFrom]
       rw [lookup_overrideBy_str n acc vars hdv, lookup_parsed _ _ _ hparse]
       rfl
+
+/-! ### snoc forms, lines that do not mention a key, appending file lists -/
+
+/-- the environment of the files alone (no `environment` entry for `k`): the last file that gives `k` a value wins -/
+theorem filesVal_snoc (penv : List (Key × Str)) (files : List (List Line)) (f : List Line) (k : Key) :
+    filesVal penv (files ++ [f]) k =
+      orElse (fileVal (envLook penv (filesVal penv files)) f k) (filesVal penv files k) := by
+  simp only [filesVal, List.reverse_append, List.reverse_cons, List.reverse_nil, List.nil_append,
+    List.cons_append, filesValRevFrom]
+  rfl
+
+/-- a line speaks about key `k` -/
+def Line.key? : Line → Option Key
+  | .assign k _ => some k
+  | .bare k => some k
+  | .bad => none
+
+def Mentions (ls : List Line) (k : Key) : Prop := ∃ l ∈ ls, Line.key? l = some k
+
+theorem fileValRevFrom_not_mentions (look : Look) (base : Key → Option Str) (ls : List Line) (k : Key)
+    (h : ¬ Mentions ls k) : fileValRevFrom look base ls k = base k := by
+  induction ls with
+  | nil => rfl
+  | cons x r ih =>
+    have hr : ¬ Mentions r k := fun ⟨l, hl, e⟩ => h ⟨l, List.mem_cons_of_mem _ hl, e⟩
+    cases x with
+    | assign k' v =>
+      have : ¬ k' = k := fun e => h ⟨_, List.mem_cons_self, by simp [Line.key?, e]⟩
+      simp [fileValRevFrom, this, ih hr]
+    | bare k' =>
+      have : ¬ k' = k := fun e => h ⟨_, List.mem_cons_self, by simp [Line.key?, e]⟩
+      simp [fileValRevFrom, this, ih hr]
+    | bad => simp [fileValRevFrom, ih hr]
+
+/-- a file that does not mention `k` gives it no value -/
+theorem fileVal_not_mentions (look : Look) (ls : List Line) (k : Key) (h : ¬ Mentions ls k) :
+    fileVal look ls k = none := by
+  unfold fileVal
+  rw [fileValRevFrom_not_mentions]
+  intro ⟨l, hl, e⟩
+  exact h ⟨l, List.mem_reverse.1 hl, e⟩
+
+theorem filesVal_append_not_mentions (penv : List (Key × Str)) (files post : List (List Line)) (k : Key)
+    (h : ∀ g ∈ post, ¬ Mentions g k) : filesVal penv (files ++ post) k = filesVal penv files k := by
+  induction post generalizing files with
+  | nil => simp
+  | cons g r ih =>
+    have e : files ++ g :: r = (files ++ [g]) ++ r := by simp
+    rw [e, ih _ (fun g' hg' => h g' (List.mem_cons_of_mem _ hg')), filesVal_snoc,
+      fileVal_not_mentions _ _ _ (h g List.mem_cons_self)]
+    rfl
+
+theorem labelFilesVal_snoc (files : List (List Line)) (f : List Line) (k : Key) :
+    labelFilesVal (files ++ [f]) k = orElse (fileVal (labelFilesVal files) f k) (labelFilesVal files k) := by
+  simp only [labelFilesVal, List.reverse_append, List.reverse_cons, List.reverse_nil, List.nil_append,
+    List.cons_append, labelFilesValRevFrom]
+  rfl
+
+theorem loadEnvFiles_append (penv : List (Key × Str)) (fs : FS) (a b : List EnvFile) (acc : List (Key × Str)) :
+    loadEnvFiles penv fs (a ++ b) acc =
+      match loadEnvFiles penv fs a acc with
+      | .error e => .error e
+      | .ok acc' => loadEnvFiles penv fs b acc' := by
+  induction a generalizing acc with
+  | nil => rfl
+  | cons f r ih =>
+    simp only [List.cons_append, loadEnvFiles]
+    cases loadEnvFile fs f (envChain penv acc) with
+    | error e => rfl
+    | ok vars => exact ih _
 
 end CV.EnvLayers
